@@ -431,7 +431,8 @@ def run(ctx):
         rng = ctx.rng("doc", i)
         # rng of a document depends on the index only, not on the shard layout
         rng.seed("C01|%s|doc|%d" % (ctx.seed, i))
-        spec = gen.gen_doc(rng, max_nodes=rng.choice([4, 10, 25]), hostile=rng.choice([0.1, 0.5, 0.8]))
+        spec = gen.gen_doc(rng, max_nodes=rng.choice([4, 10, 25] if ctx.quick() else [4, 10, 25, 60, 200]),
+                           depth=rng.choice([3, 3, 5]), hostile=rng.choice([0.1, 0.5, 0.8]), links=True)
         kind = "generated"
         if rng.random() < 0.06:
             if inject_unrepresentable(spec, rng):
